@@ -100,10 +100,12 @@ func (in *inst) set(k int) coverage.Set {
 	return s
 }
 
-func covOf(gg []glyph.ID) coverage.Table {
+// cov builds the coverage table of the sorted glyphs gg; the map is filled in random order (the
+// iteration order of small Go maps depends on the insertion order).
+func (in *inst) cov(gg []glyph.ID) coverage.Table {
 	c := coverage.Table{}
-	for i, g := range gg {
-		c[g] = i
+	for _, i := range in.r.Perm(len(gg)) {
+		c[gg[i]] = i
 	}
 	return c
 }
@@ -207,7 +209,7 @@ func (in *inst) subtable(s *Shape, form string) gtab.Subtable {
 			from = append(from, glyph.ID(start+i))
 			to = append(to, glyph.ID(start+i+delta))
 		}
-		return &gtab.Gsub1_2{Cov: covOf(from), SubstituteGlyphIDs: to}
+		return &gtab.Gsub1_2{Cov: in.cov(from), SubstituteGlyphIDs: to}
 	case "map": // a glyphs, no constant delta
 		from := in.distinct(a)
 		for {
@@ -219,7 +221,7 @@ func (in *inst) subtable(s *Shape, form string) gtab.Subtable {
 				}
 			}
 			if !cd {
-				return &gtab.Gsub1_2{Cov: covOf(from), SubstituteGlyphIDs: to}
+				return &gtab.Gsub1_2{Cov: in.cov(from), SubstituteGlyphIDs: to}
 			}
 		}
 	case "mult":
@@ -228,7 +230,7 @@ func (in *inst) subtable(s *Shape, form string) gtab.Subtable {
 		for i := range repl {
 			repl[i] = in.list(b)
 		}
-		return &gtab.Gsub2_1{Cov: covOf(from), Repl: repl}
+		return &gtab.Gsub2_1{Cov: in.cov(from), Repl: repl}
 	case "alt":
 		from := in.distinct(a)
 		alts := make([][]glyph.ID, a)
@@ -238,7 +240,7 @@ func (in *inst) subtable(s *Shape, form string) gtab.Subtable {
 				alts[i] = []glyph.ID{}
 			}
 		}
-		return &gtab.Gsub3_1{Cov: covOf(from), Alternates: alts}
+		return &gtab.Gsub3_1{Cov: in.cov(from), Alternates: alts}
 	case "lig": // a first glyphs, b ligatures each, c components
 		from := in.distinct(a)
 		repl := make([][]gtab.Ligature, a)
@@ -251,7 +253,7 @@ func (in *inst) subtable(s *Shape, form string) gtab.Subtable {
 				repl[i] = append(repl[i], gtab.Ligature{In: in.list(c - 1), Out: in.gid()})
 			}
 		}
-		return &gtab.Gsub4_1{Cov: covOf(from), Repl: repl}
+		return &gtab.Gsub4_1{Cov: in.cov(from), Repl: repl}
 	case "ligrun": // a consecutive one-component ligatures with a constant delta
 		start := 1 + in.r.Intn(MaxUsed-a-1)
 		delta := 1
@@ -261,7 +263,7 @@ func (in *inst) subtable(s *Shape, form string) gtab.Subtable {
 			from = append(from, glyph.ID(start+i))
 			repl[i] = []gtab.Ligature{{In: nil, Out: glyph.ID(start + i + delta)}}
 		}
-		return &gtab.Gsub4_1{Cov: covOf(from), Repl: repl}
+		return &gtab.Gsub4_1{Cov: in.cov(from), Repl: repl}
 	case "ctx1": // a rules, input length b, c actions
 		firsts := in.distinct(in.firsts(a))
 		rules := make([][]*gtab.SeqRule, len(firsts))
@@ -269,7 +271,7 @@ func (in *inst) subtable(s *Shape, form string) gtab.Subtable {
 			k := i % len(firsts)
 			rules[k] = append(rules[k], &gtab.SeqRule{Input: in.list(b - 1), Actions: in.actions(c, b)})
 		}
-		return &gtab.SeqContext1{Cov: covOf(firsts), Rules: rules}
+		return &gtab.SeqContext1{Cov: in.cov(firsts), Rules: rules}
 	case "ctx2": // d classes, a rules, input length b, c actions
 		cls := in.classes(d)
 		rules := make([][]*gtab.ClassSeqRule, d+1)
@@ -277,7 +279,7 @@ func (in *inst) subtable(s *Shape, form string) gtab.Subtable {
 			k := in.r.Intn(d + 1)
 			rules[k] = append(rules[k], &gtab.ClassSeqRule{Input: in.classSeq(b-1, d), Actions: in.actions(c, b)})
 		}
-		return &gtab.SeqContext2{Cov: covOf(in.distinct(1 + in.r.Intn(3))), Input: cls, Rules: rules}
+		return &gtab.SeqContext2{Cov: in.cov(in.distinct(1 + in.r.Intn(3))), Input: cls, Rules: rules}
 	case "ctx3": // input length b, c actions
 		return &gtab.SeqContext3{Input: in.sets(b), Actions: in.actions(c, b)}
 	case "cc1": // a rules, backtrack d, input b, lookahead e, c actions
@@ -288,7 +290,7 @@ func (in *inst) subtable(s *Shape, form string) gtab.Subtable {
 			rules[k] = append(rules[k], &gtab.ChainedSeqRule{Backtrack: in.list(d), Input: in.list(b - 1),
 				Lookahead: in.list(e), Actions: in.actions(c, b)})
 		}
-		return &gtab.ChainedSeqContext1{Cov: covOf(firsts), Rules: rules}
+		return &gtab.ChainedSeqContext1{Cov: in.cov(firsts), Rules: rules}
 	case "cc2":
 		nb, ni, na := in.r.Intn(3), 1+in.r.Intn(2), in.r.Intn(3)
 		if d == 0 {
@@ -303,20 +305,20 @@ func (in *inst) subtable(s *Shape, form string) gtab.Subtable {
 			rules[k] = append(rules[k], &gtab.ChainedClassSeqRule{Backtrack: in.classSeq(d, nb),
 				Input: in.classSeq(b-1, ni), Lookahead: in.classSeq(e, na), Actions: in.actions(c, b)})
 		}
-		return &gtab.ChainedSeqContext2{Cov: covOf(in.distinct(1 + in.r.Intn(3))), Backtrack: in.classes(nb),
+		return &gtab.ChainedSeqContext2{Cov: in.cov(in.distinct(1 + in.r.Intn(3))), Backtrack: in.classes(nb),
 			Input: in.classes(ni), Lookahead: in.classes(na), Rules: rules}
 	case "cc3":
 		return &gtab.ChainedSeqContext3{Backtrack: in.sets(d), Input: in.sets(b), Lookahead: in.sets(e),
 			Actions: in.actions(c, b)}
 	case "pos1set": // a glyphs, value record mask b
-		return &gtab.Gpos1_1{Cov: covOf(in.distinct(a)), Adjust: in.vr(b)}
+		return &gtab.Gpos1_1{Cov: in.cov(in.distinct(a)), Adjust: in.vr(b)}
 	case "pos1each":
 		gg := in.distinct(a)
 		adj := make([]*gtab.GposValueRecord, a)
 		for i := range adj {
 			adj[i] = in.vr(b)
 		}
-		return &gtab.Gpos1_2{Cov: covOf(gg), Adjust: adj}
+		return &gtab.Gpos1_2{Cov: in.cov(gg), Adjust: adj}
 	case "pair": // a pairs, first mask b, second mask c (0 = absent)
 		res := gtab.Gpos2_1{}
 		lefts := in.distinct(in.firsts(a))
@@ -356,7 +358,7 @@ func (in *inst) subtable(s *Shape, form string) gtab.Subtable {
 			recs[i] = gtab.EntryExitRecord{Entry: anchor.Table{X: in.coord(), Y: in.coord()},
 				Exit: anchor.Table{X: in.coord(), Y: in.coord()}}
 		}
-		return &gtab.Gpos3_1{Cov: covOf(gg), Records: recs}
+		return &gtab.Gpos3_1{Cov: in.cov(gg), Records: recs}
 	case "markbase": // a marks in b classes (a >= b), c bases
 		marks := in.distinct(a)
 		ma := make([]markarray.Record, a)
@@ -372,7 +374,7 @@ func (in *inst) subtable(s *Shape, form string) gtab.Subtable {
 				ba[i] = append(ba[i], anchor.Table{X: in.coord(), Y: in.coord()})
 			}
 		}
-		return &gtab.Gpos4_1{MarkCov: covOf(marks), BaseCov: covOf(bases), MarkArray: ma, BaseArray: ba}
+		return &gtab.Gpos4_1{MarkCov: in.cov(marks), BaseCov: in.cov(bases), MarkArray: ma, BaseArray: ba}
 	}
 	panic(fmt.Sprintf("unknown form %q", form))
 }
